@@ -4,7 +4,7 @@ import FluteModel.Sched
   Line-protocol driver of the scheduler model (engine `sched`).
 
     fdtpkts n0 n1 ...                      input table: packets of the k-th published FDT instance   -> ok
-    new <f|b> <d|i> <carNs> <fdtDurNs> <startId> <il> <efdt> <nq> (<prio> <mux>)*                    -> ok
+    new <f|b> <d|i> <carNs> <fdtDurNs> <startId> <il> <efdt> <fits 0|1> <nq> (<prio> <mux>)*         -> ok
         (il = interleave_blocks, efdt = symbol length of the FDT: used by the harness only)
     add <prio> <nSym> <maxCount> <n|d|i> <carNs> <-|startNs> <n|f|d|t> <targetNs> <0|1> <E> <B> <rem> -> ok <toi> | ERR
         (E, B, rem = symbol length, max source block length, bytes in the last symbol: harness only)
@@ -104,14 +104,15 @@ def step (d : D) (args : List String) : D × String :=
     | none => (d, "bad-op")
   | "new" :: m :: ck :: rest =>
     match nats? rest with
-    | some (cd :: dur :: sid :: _il :: _efdt :: nq :: qs) =>
+    | some (cd :: dur :: sid :: _il :: _efdt :: fits :: nq :: qs) =>
       match carousel? ck cd, queues? qs with
       | some (some car), some ql =>
-        if ql.length ≠ nq then (d, "bad-op") else
+        if ql.length ≠ nq ∨ fits > 1 then (d, "bad-op") else
         let mode? : Option Mode := if m = "f" then some .full else if m = "b" then some .being else none
         match mode? with
         | some mode =>
-          let cfg : Cfg := { mode := mode, fdtCarousel := car, fdtDuration := dur, fdtStartId := sid, queues := ql }
+          let cfg : Cfg := { mode := mode, fdtCarousel := car, fdtDuration := dur, fdtStartId := sid, queues := ql,
+                             fdtFits := fits == 1 }
           ({ d with st := some (init cfg d.tbl) }, "ok")
         | none => (d, "bad-op")
       | _, _ => (d, "bad-op")
@@ -131,7 +132,7 @@ def step (d : D) (args : List String) : D × String :=
   | ["publish", t] =>
     withState d fun s =>
       match nat? t with
-      | some t => fin d (publishOp s t) "ok"
+      | some t => fin d (publishOp s t) (if s.cfg.fdtFits then "ok" else "ERR")
       | none => (d, "bad-op")
   | ["remove", t] =>
     withState d fun s =>
